@@ -51,7 +51,7 @@ def async_records(job):
     # expand units into wire commands (ENABLE DEVICE TYPE prefixes are commands of their own)
     sent = []
     for d in desc:
-        if d["dt"] and drv in ("tridonic", "hasseb"):
+        if d["dt"]:
             sent.append({"frame": 0xC100 | d["dt"], "bits": 16, "twice": 0, "query": 0, "dt": 0})
         sent.append(d)
     prev = 0
